@@ -126,12 +126,13 @@ PROPS = {
         level="proof",
         level_text="Lean theorems over a generic-precision round-to-nearest-even model with gradual underflow (floats = integer multiples of "
                    "the smallest subnormal): RN is nearest/monotone/exact, Sterbenz, representable sum error; quick_two_sum (Dekker), two_sum and "
-                   "two_diff (Knuth, no magnitude hypothesis, p >= 2), generic twoSum, three_sum, split (Veltkamp: hi+lo = a for every float; bit "
-                   "widths for normal floats), two_prod and two_sqr (Dekker product, normal operands, no underflow) - each both on integer units and "
+                   "two_diff (Knuth, no magnitude hypothesis, p >= 2), generic twoSum, three_sum, split (Veltkamp: hi+lo = a for every float, both "
+                   "branches incl. the ldexp rescaling above SPLIT_THRESHOLD; bit widths for normal floats), two_prod and two_sqr (Dekker product, "
+                   "all operands - zero, subnormal, normal - by scale invariance, no underflow) - each both on integer units and "
                    "for the model functions the driver runs; Model.F64 is checked bit for bit against the hardware and every implementation output "
                    "is judged by the exact rational identity and the round-to-nearest-even relation",
-        level_note="proved for all p and operands except: split above SPLIT_THRESHOLD (ldexp branch) and two_prod/two_sqr with subnormal operands "
-                   "are stated as `def ... : Prop` only; trusted: Lean kernel, hand-written model, g++ 12.2 (-O1, -O3; a contracted "
+        level_note="proved for all operands within the property's guards (formats with p >= 4 and p + 2(BITS+1) <= top for the product forms; "
+                   "|x| < 2^(top-1); no-underflow guard q <= (size a - p) + (size b - p)); trusted: Lean kernel, hand-written model, g++ 12.2 (-O1, -O3; a contracted "
                    "-ffp-contract=fast -mfma build is judged by the spec predicate only)",
         explanation="two_sum, quick_two_sum, two_diff, split, two_prod, two_sqr, three_sum (and the generic twoSum<double>): model = the C++ "
                     "statement sequence over an exact-integer model of binary64; spec = s + r == a (op) b exactly and s == RN(a (op) b) under the "
@@ -146,11 +147,13 @@ PROPS = {
         replay=lambda path, exes: [dict(exe=exes["h_dd"], args=["replay", path], label="replay dd/qd inputs through the current implementation"),
                                    dict(exe=exes["h_eft"], args=["replay", path], label="replay f64 inputs through the current implementation")],
         level="proof",
-        level_text="Lean theorems for the exactness clauses (dd sum and dd product of two doubles exact with correctly rounded head, x-x = 0, "
-                   "multiplication by a power of two exact for normal limbs, NaN/inf propagation of + - * /) and counterexample theorems where the "
-                   "pinned code deviates (strict normalisation D21, finite/inf, sqrt(inf), x/0 sign, DBL_MAX*0.5); the relative-error constants "
-                   "(k*2^-106, k*2^-212) are measured exactly on rationals for every transcript line, not proved",
-        level_note="partial: numeric error bounds and weak normalisation are measured only (k = 4 for + - *, 10 for / and sqrt); "
+        level_text="Lean theorems: weak normalisation |lo| <= ulp(hi) of dd + - * (what the closing three_sum guarantees, p >= 6, any "
+                   "cancellation, subnormals); proved relative error 3*2^(-2p) (3*2^-106) for dd + and -; exactness clauses (dd sum and dd product of "
+                   "two doubles exact with correctly rounded head, x-x = 0, multiplication by a power of two exact incl. subnormal tails); NaN/inf "
+                   "propagation of + - * /; counterexample theorems where the pinned code deviates (strict normalisation D21, finite/inf, sqrt(inf), "
+                   "x/0 sign, DBL_MAX*0.5); the relative-error constants of * / sqrt and of qd are measured exactly on rationals for every "
+                   "transcript line, not proved",
+        level_note="partial: error bounds of dd * / sqrt and all qd bounds are measured only (k = 4 for *, 10 for / and sqrt; 4*2^-212 for qd); "
                    "trusted: Lean kernel, hand-written model, g++ 12.2",
         explanation="dd + - * / sqrt and qd + - *: model = the C++ statement sequence (two_sum/two_prod/three_sum/renorm/fma) over Model.F64; spec = "
                     "normalisation |lo| <= ulp(hi)/2, relative error bound on exact rationals, exactness clauses, inf/NaN like doubles",
